@@ -753,7 +753,7 @@ static void report(Stats& st, const std::string& prefix, const Problems& ps, con
 }
 
 // returns false when the scenario was not generated (headParts on an ineligible model)
-static bool run_scenario(const Source& src, const std::string& bytes, const Opts& o, Stats& st, UnitAcc& acc) {
+static bool run_scenario(const Source& src, const std::string& bytes, const Opts& o, Stats& st, UnitAcc& acc, bool sample) {
 	vf::set_inflight(scenario_json(src, o, 1).dump());
 	NifFile N;
 	if (load_bytes(N, bytes) != 0) {
@@ -814,7 +814,7 @@ static bool run_scenario(const Source& src, const std::string& bytes, const Opts
 	st.add("segments_kept", cs.segmentsKept);
 	st.add("segments_changed", cs.segmentsChanged);
 	st.add("top4_ambiguous_shapes", cs.ambiguousTop4);
-	if (cs.rebuilt > 0) acc.nontrivial.insert(src.id() + "#" + std::to_string(o.index()));
+	if (cs.rebuilt > 0 && acc.nontrivial.insert(src.id() + "#" + std::to_string(o.index())).second) st.add("distinct_nontrivial");
 	if (res.dupesRenamed) st.add("result.dupesRenamed");
 	if (!res.shapesVColorsRemoved.empty()) st.add("result.vcolorsRemoved");
 	if (!res.shapesNormalsRemoved.empty()) st.add("result.normalsRemoved");
@@ -856,12 +856,9 @@ static bool run_scenario(const Source& src, const std::string& bytes, const Opts
 	st.distinct("outcomes", vf::strf("%s/%d/%zu/%d%d%d%d%d%d/%zu", d1.c_str(), cs.rebuilt, S1.shapes.size(), (int) res.dupesRenamed, !res.shapesVColorsRemoved.empty(),
 									 !res.shapesNormalsRemoved.empty(), !res.shapesPartTriangulated.empty(), !res.shapesTangentsAdded.empty(),
 									 !res.shapesParallaxRemoved.empty(), bytes1.size()));
-	if (bad) {
-		st.add("leg2_skipped_after_violation");
-		return true;
-	}
-
-	// ---- leg 2: back again, from the reloaded file
+	// ---- leg 2: back again, from the reloaded file.  After a leg-1 violation the second conversion
+	// is still executed (a sanitizer fault on the library's own output is a finding of its own) but
+	// its result is not compared, so that one defect is not reported twice.
 	vf::set_inflight(scenario_json(src, o, 2).dump());
 	if (o.headParts && !headparts_eligible(S2)) {
 		st.add("leg2_skipped_headparts_not_eligible");
@@ -870,6 +867,14 @@ static bool run_scenario(const Source& src, const std::string& bytes, const Opts
 	OptOptions lo2 = o.lib(toSSE ? NiVersion::getSK() : NiVersion::getSSE());
 	OptResult res2 = R.OptimizeFor(lo2);
 	st.add("evaluations");
+	if (bad) {
+		st.add("leg2_fault_watch_only_after_leg1_violation");
+		int rc2 = 0;
+		std::string b2 = save_bytes(R, &rc2);
+		NifFile T2;
+		if (rc2 == 0 && !b2.empty()) load_bytes(T2, b2);
+		return true;
+	}
 	st.add("there_and_back");
 	if (res2.versionMismatch) {
 		st.add("version_mismatch");
@@ -910,24 +915,40 @@ static bool run_scenario(const Source& src, const std::string& bytes, const Opts
 			st.violation(d2 + ":partition-invariant:" + k, "reloaded back-converted shape '" + s.name + "': " + s.partDetail + " [" + src.id() + " opts " + o.json().dump() + "]",
 						 scenario_json(src, o, 0));
 	st.distinct("outcomes", vf::strf("%s/%d/%zu/%zu", rt.c_str(), cs3.rebuilt, S3.shapes.size(), bytes2.size()));
+	if (sample)
+		st.sample(scenario_json(src, o, 0)
+					  .set("direction", rt)
+					  .set("input_bytes", (long long) bytes.size())
+					  .set("converted_bytes", (long long) bytes1.size())
+					  .set("back_converted_bytes", (long long) bytes2.size())
+					  .set("shapes_rebuilt", cs.rebuilt)
+					  .set("dupes_renamed", res.dupesRenamed));
 	return true;
 }
 
+
 // ---------------------------------------------------------------- enumeration
-static std::vector<Source> g_sources;
-struct Unit {
+// A task is one scenario (source, option set).  A unit is a run of consecutive tasks handed to one
+// worker.  The worker executes a unit inside a forked child of its own; when that child dies the
+// fault is attributed to the scenario in flight, reported, and a fresh child continues with the
+// task after it, so that one faulting scenario costs one fork and nothing else is lost or repeated.
+struct Task {
 	size_t src;
-	int o_begin, o_end;
+	int opt;
+};
+static std::vector<Source> g_sources;
+static std::vector<Task> g_tasks;
+struct Unit {
+	size_t begin, end; // task range
 };
 static std::vector<Unit> g_units;
 
 static bool file_version(const std::string& bytes, uint32_t& stream) {
 	size_t nl = bytes.find('\n');
 	if (nl == std::string::npos || bytes.size() < nl + 18) return false;
-	uint32_t ver, user, nblocks;
+	uint32_t ver, user;
 	memcpy(&ver, bytes.data() + nl + 1, 4);
 	memcpy(&user, bytes.data() + nl + 6, 4);
-	memcpy(&nblocks, bytes.data() + nl + 10, 4);
 	memcpy(&stream, bytes.data() + nl + 14, 4);
 	return ver == 0x14020007 && user == 12;
 }
@@ -991,15 +1012,27 @@ static void enumerate(bool thorough, Stats& top) {
 									nmodels++;
 								}
 	top.set_info("built_models", (long long) nmodels);
+}
+
+static void make_units(bool thorough, const std::string& only) {
+	const size_t modelsPerUnit = 6;
+	size_t inUnit = 0;
+	size_t ubegin = 0;
+	auto close = [&]() {
+		if (g_tasks.size() > ubegin) g_units.push_back({ubegin, g_tasks.size()});
+		ubegin = g_tasks.size();
+		inUnit = 0;
+	};
 	for (size_t i = 0; i < g_sources.size(); i++) {
-		if (g_sources[i].isFile)
-			for (int o = 0; o < 32; o++) {
-				if (!thorough && !quick_option(o)) continue;
-				g_units.push_back({i, o, o + 1});
-			}
-		else
-			g_units.push_back({i, 0, 32});
+		if (!only.empty() && g_sources[i].id().find(only) == std::string::npos) continue;
+		for (int o = 0; o < 32; o++) {
+			if (!thorough && !quick_option(o)) continue;
+			g_tasks.push_back({i, o});
+			if (g_sources[i].isFile) close(); // sample files: one scenario per unit (they are the expensive ones)
+		}
+		if (!g_sources[i].isFile && ++inUnit >= modelsPerUnit) close();
 	}
+	close();
 }
 
 static std::string source_bytes(const Source& s, Stats& st) {
@@ -1013,37 +1046,43 @@ static std::string source_bytes(const Source& s, Stats& st) {
 	return b.bytes;
 }
 
-static void run_unit(const Source& src, int o_begin, int o_end, bool thorough, const std::vector<std::string>& skips, Stats& st) {
-	st.max_viols_per_key = 1;
-	vf::set_inflight(J(src.json()).set("stage", "build").dump());
-	std::string bytes = source_bytes(src, st);
-	if (bytes.empty()) return;
-	UnitAcc acc;
-	std::set<int> skip;
-	for (auto& s : skips) skip.insert(atoi(s.c_str() + 1));
-	for (int o = o_begin; o < o_end; o++) {
-		if (!thorough && !quick_option(o)) continue;
-		if (skip.count(o)) {
-			st.add("scenarios_crashed");
-			continue;
+// parse protocol lines written by a child back into a Stats object
+static void merge_lines(Stats& st, const std::string& text) {
+	std::istringstream is(text);
+	std::string line;
+	while (std::getline(is, line)) {
+		if (line.empty()) continue;
+		std::vector<std::string> p;
+		size_t a = 0;
+		for (;;) {
+			size_t b = line.find('\t', a);
+			if (b == std::string::npos) { p.push_back(line.substr(a)); break; }
+			p.push_back(line.substr(a, b - a));
+			a = b + 1;
 		}
-		if (vf::deadline_passed()) {
-			st.capped("deadline reached inside " + src.id());
-			break;
+		try {
+			if (p[0] == "C" && p.size() >= 3) st.add(p[1], atoll(p[2].c_str()));
+			else if (p[0] == "M" && p.size() >= 3) st.max(p[1], atoll(p[2].c_str()));
+			else if (p[0] == "S" && p.size() >= 3) st.distinct(p[1], p[2]);
+			else if (p[0] == "E" && p.size() >= 2) st.sample(J::parse(p[1]));
+			else if (p[0] == "V" && p.size() >= 4) st.violation(p[1], p[2], J::parse(p[3]));
+			else if (p[0] == "N" && p.size() >= 2) {
+				if (p[1].compare(0, 5, "cap: ") == 0) st.capped(p[1].substr(5));
+				else st.note(p[1]);
+			}
+			else if (p[0] == "X") st.exhaustive = false;
+		} catch (std::exception&) {
+			st.add("unparsable_child_lines");
 		}
-		run_scenario(src, bytes, Opts::from_index(o), st, acc);
 	}
-	st.add("distinct_nontrivial", (long long) acc.nontrivial.size());
-	st.add("units");
 }
 
-static std::string crash_violation(const vf::CrashInfo& ci, const std::string& inflight, Stats& parent, int& optIndex) {
-	optIndex = -1;
+static std::string crash_violation(const vf::CrashInfo& ci, const std::string& inflight, Stats& parent) {
 	J j;
 	try {
 		j = J::parse(inflight);
 	} catch (std::exception&) {
-		parent.violation("crash:" + ci.key(), "worker died outside a described scenario: " + ci.cls + " in " + ci.frame, J::obj());
+		parent.violation("crash:" + ci.key(), "process died outside a described scenario: " + ci.cls + " in " + ci.frame, J::obj());
 		return "";
 	}
 	if (j.has("stage")) {
@@ -1060,9 +1099,8 @@ static std::string crash_violation(const vf::CrashInfo& ci, const std::string& i
 	else
 		s.r = Recipe::from(j["model"]);
 	Opts o = Opts::from(j["opts"]);
-	optIndex = o.index();
 	int leg = (int) j["leg"].i64();
-	bool toSSE1 = s.isFile ? true : s.r.ver == V_LE;
+	bool toSSE1 = s.r.ver == V_LE;
 	if (s.isFile) {
 		uint32_t stream = 0;
 		std::string b = vf::read_file(A.repo + "/tests/" + s.file);
@@ -1071,11 +1109,75 @@ static std::string crash_violation(const vf::CrashInfo& ci, const std::string& i
 	}
 	bool toSSE = leg == 2 ? !toSSE1 : toSSE1;
 	std::string key = std::string(dir_name(toSSE)) + ":crash:" + ci.key() + ":" + s.feature();
+	std::string head = ci.text.substr(0, 500);
 	parent.violation(key,
-					 vf::strf("%s while converting %s (leg %d of %s, options %s); first report lines: %s", ci.cls.c_str(), s.id().c_str(), leg,
-							  toSSE1 ? "LE->SE->LE" : "SE->LE->SE", o.json().dump().c_str(), ci.text.substr(0, 400).c_str()),
+					 vf::strf("%s while converting %s (leg %d of %s, options %s); report: %s", ci.cls.c_str(), s.id().c_str(), leg,
+							  toSSE1 ? "LE->SE->LE" : "SE->LE->SE", o.json().dump().c_str(), head.c_str()),
 					 scenario_json(s, o, 0));
+	parent.add("scenarios_faulted");
+	parent.distinct("fault_sites", std::string(dir_name(toSSE)) + ":" + ci.key());
 	return key;
+}
+
+// executes tasks [begin,end) of the task list; isolation as described above
+static void run_tasks(const std::vector<Task>& tasks, const std::vector<Source>& sources, size_t begin, size_t end, Stats& st) {
+	st.max_viols_per_key = 1;
+	std::string tmp = A.rundir + "/c12." + std::to_string(getpid()) + ".part";
+	size_t pos = begin;
+	int guard = 0;
+	while (pos < end) {
+		if (vf::deadline_passed()) {
+			st.capped(vf::strf("deadline reached, %zu scenarios of a unit not run", end - pos));
+			st.add("scenarios_not_run_deadline", (long long) (end - pos));
+			break;
+		}
+		unlink(tmp.c_str());
+		vf::set_progress((long) pos);
+		vf::set_inflight("");
+		vf::CrashInfo ci = vf::run_isolated(A.rundir, A.repo, 0, [&]() -> int {
+			FILE* f = fopen(tmp.c_str(), "w");
+			if (!f) return 5;
+			UnitAcc acc;
+			size_t cachedSrc = (size_t) -1;
+			std::string bytes;
+			for (size_t t = pos; t < end; t++) {
+				Stats s;
+				s.max_viols_per_key = 1;
+				if (vf::deadline_passed()) {
+					s.capped(vf::strf("deadline reached, %zu scenarios of a unit not run", end - t));
+					s.add("scenarios_not_run_deadline", (long long) (end - t));
+					s.flush(f);
+					break;
+				}
+				vf::set_progress((long) t);
+				const Source& src = sources[tasks[t].src];
+				if (cachedSrc != tasks[t].src) {
+					vf::set_inflight(J(src.json()).set("stage", "build").dump());
+					bytes = source_bytes(src, s);
+					cachedSrc = tasks[t].src;
+				}
+				alarm(300); // a conversion that does not return is a fault as well (class "timeout")
+				if (!bytes.empty()) run_scenario(src, bytes, Opts::from_index(tasks[t].opt), s, acc, t % 211 == 0);
+				alarm(0);
+				s.flush(f);
+			}
+			fclose(f);
+			return 0;
+		});
+		merge_lines(st, vf::read_file(tmp));
+		unlink(tmp.c_str());
+		if (ci.cls.empty()) break;
+		// the child died: attribute, then continue after the scenario that was in flight
+		long at = vf::g_shared && vf::g_slot >= 0 ? vf::g_shared->slots[vf::g_slot].progress.load() : (long) pos;
+		std::string inflight = vf::g_shared && vf::g_slot >= 0 ? std::string(vf::g_shared->slots[vf::g_slot].inflight) : std::string();
+		crash_violation(ci, inflight, st);
+		if ((size_t) at < pos || (size_t) at >= end || ++guard > 100000) {
+			st.capped("cannot resume a unit after a fault");
+			break;
+		}
+		pos = (size_t) at + 1;
+	}
+	st.add("units");
 }
 
 int main(int argc, char** argv) {
@@ -1087,6 +1189,13 @@ int main(int argc, char** argv) {
 	pc.jobs = A.jobs;
 	pc.rundir = A.rundir;
 	pc.repo = A.repo;
+	auto pool_crash = [&](size_t, const vf::CrashInfo& ci, const std::string& inflight, Stats& parent) -> std::string {
+		// a worker itself died (outside the isolated children): report, do not retry
+		crash_violation(ci, inflight, parent);
+		parent.add("worker_deaths");
+		parent.capped("a worker process died outside an isolated scenario");
+		return "";
+	};
 
 	if (!A.replay.empty()) {
 		J c = J::parse(vf::read_file(A.replay))["case"];
@@ -1097,53 +1206,21 @@ int main(int argc, char** argv) {
 		}
 		else
 			s.r = Recipe::from(c["model"]);
+		if (!s.isFile && !s.r.valid()) vf::fatal("replay: recipe is not valid");
 		Opts o = Opts::from(c["opts"]);
+		std::vector<Source> srcs{s};
+		std::vector<Task> tasks{{0, o.index()}};
 		vf::run_pool(
-			1, pc,
-			[&](size_t, const std::vector<std::string>& skips, long, Stats& st) {
-				if (!skips.empty()) return;
-				std::string bytes = source_bytes(s, st);
-				if (bytes.empty()) vf::fatal("replay: input cannot be built / read");
-				UnitAcc acc;
-				if (!run_scenario(s, bytes, o, st, acc)) st.note("replay: scenario is not generated (headParts on a model that is not head-part eligible, or unreadable input)");
-			},
-			[&](size_t, const vf::CrashInfo& ci, const std::string& inflight, Stats& parent) -> std::string {
-				int oi;
-				crash_violation(ci, inflight, parent, oi);
-				return "";
-			},
-			top);
+			1, pc, [&](size_t, const std::vector<std::string>&, long, Stats& st) { run_tasks(tasks, srcs, 0, 1, st); }, pool_crash, top);
 		vf::finish(top);
 		return 0;
 	}
 
 	enumerate(thorough, top);
-	if (A.has("only")) {
-		// debugging aid: keep the sources whose id contains the given text
-		std::vector<Unit> keep;
-		for (auto& u : g_units)
-			if (g_sources[u.src].id().find(A.get("only")) != std::string::npos) keep.push_back(u);
-		g_units = keep;
-	}
-	std::map<size_t, std::map<std::string, int>> crashes; // unit -> crash key -> count
+	make_units(thorough, A.get("only"));
 	vf::run_pool(
-		g_units.size(), pc,
-		[&](size_t u, const std::vector<std::string>& skips, long, Stats& st) {
-			for (auto& s : skips)
-				if (s == "abandon") {
-					st.add("units_abandoned_after_repeated_crash");
-					return;
-				}
-			run_unit(g_sources[g_units[u].src], g_units[u].o_begin, g_units[u].o_end, thorough, skips, st);
-		},
-		[&](size_t u, const vf::CrashInfo& ci, const std::string& inflight, Stats& parent) -> std::string {
-			int oi = -1;
-			std::string key = crash_violation(ci, inflight, parent, oi);
-			parent.add("worker_crashes");
-			if (oi < 0) return "";
-			return "o" + std::to_string(oi);
-		},
-		top);
+		g_units.size(), pc, [&](size_t u, const std::vector<std::string>&, long, Stats& st) { run_tasks(g_tasks, g_sources, g_units[u].begin, g_units[u].end, st); },
+		pool_crash, top);
 
 	top.set_info("rule",
 				 vf::strf("complete product, no sampling: %s sample files with stream version 83/100 (identical contents once) and API-built models over "
@@ -1157,6 +1234,7 @@ int main(int argc, char** argv) {
 						  thorough ? "4v/2t, 5v/3t/5 bones, 6v/4t/2 partitions" : "4v/2t, 6v/4t/2 partitions",
 						  thorough ? "all 32" : "8 (calcBounds = fixBSXFlags = fixShaderFlags)"));
 	top.set_info("option_sets", thorough ? 32 : 8);
+	top.set_info("scenarios_enumerated", (long long) g_tasks.size());
 	top.set_info("units_total", (long long) g_units.size());
 	vf::finish(top);
 	return 0;
